@@ -290,6 +290,14 @@ def c14_malformed_override_option():
     return o[0] == "config-error", o
 
 
+@demo
+def c11_zero_value_with_the_other_two_accepted():
+    res = []
+    for body in ("nr: 0\ndr: 0.1\ncutoff: 5.0\n", "nr: 11\ndr: 0.1\ncutoff: 0\n", "nrho: 0\ndrho: 0.1\ncutoff_rho: 5.0\n"):
+        res.append(_outcome(lambda: (_cfg("[Tabulation]\n" + body).tabulation.nr, _cfg("[Tabulation]\n" + body).tabulation.nrho))[0])
+    return all(r == "config-error" for r in res), res
+
+
 if __name__ == "__main__":
     want = sys.argv[1:]
     nbad = 0
